@@ -199,8 +199,8 @@ const c05FreshEvery = 97
 func init() {
 	var nSeeds int
 	mon.Register(&mon.Check{
-		ID: "C05",
-		Rule: "evaluations = Lint*Ex calls; each case lints one object 4-8 times through the global registry (half of them on a fresh parse of the same bytes), interleaved with other objects, filtered registries and other configurations, and all per-lint (status, details) must be identical; exported fields of the parsed object are digested (reflection walk) before and after; a sample of cases is re-run alone in a fresh process and compared by result digest; the lint phase is traced with strace (syscall classification) and run with a std-library overlay that hooks time.Now / syscall.Getenv / syscall.Environ with caller attribution. distinct_nontrivial (de-duplicated by a hash of the DER bytes within each worker process) = distinct inputs with >= 1 lint beyond NA that went through the full repetition protocol.",
+		ID:          "C05",
+		Rule:        "evaluations = Lint*Ex calls; each case lints one object 4-8 times through the global registry (half of them on a fresh parse of the same bytes), interleaved with other objects, filtered registries and other configurations, and all per-lint (status, details) must be identical; exported fields of the parsed object are digested (reflection walk) before and after; a sample of cases is re-run alone in a fresh process and compared by result digest; the lint phase is traced with strace (syscall classification) and run with a std-library overlay that hooks time.Now / syscall.Getenv / syscall.Environ with caller attribution. distinct_nontrivial (de-duplicated by a hash of the DER bytes within each worker process) = distinct inputs with >= 1 lint beyond NA that went through the full repetition protocol.",
 		Assumptions: []string{"wall-clock day held fixed: a UTC date change during a comparison that affects only the two exempt AIA lints is skipped and counted", "unexported parser caches are not part of the read-only claim"},
 		Setup: func(c *mon.Ctx) error {
 			if err := c05Setup(c); err != nil {
@@ -211,7 +211,7 @@ func init() {
 		},
 		Cases:   func(c *mon.Ctx) int { return nSeeds + c.Pick(12000, 400000) + directedCount(c)/c.Pick(6, 1) },
 		RunCase: func(c *mon.Ctx, i int) { c05Case(c, i, c.Only >= 0 || i%c05FreshEvery == 0) },
-		Aux: map[string]func(c *mon.Ctx){"io": c05IOAux},
+		Aux:     map[string]func(c *mon.Ctx){"io": c05IOAux},
 		Finish: func(c *mon.Ctx, r *mon.Report, ev *mon.Evidence) []string {
 			gates := mutGate(r, 500)
 			gates = append(gates, c05Fresh(c, r, ev)...)
